@@ -110,7 +110,8 @@ def histories(draw):
                       'depth': d.choice([None, None, 900, 50, 12, 3000]), 'use_stl': use_stl,
                       'dir_tag': d.choice(['x', 'y', 'deep/er/dir', 'a b', 'x']), 'debug': True,
                       # the stl files' short names as the lower-level assembler.assemble lets a caller choose them
-                      'short_prefix': d.choice([None, None, None, 'lib']) if use_stl else None})
+                      'short_prefix': d.choice([None, None, None, 'lib']) if use_stl else None,
+                      'via_stl_list': use_stl and d.pct() < 12})
     return {'steps': steps}
 
 
@@ -124,7 +125,7 @@ _memo = {}
 
 def fresh(req):
     """result of the request in a fresh interpreter process (memoised in-process and on disk inside the snapshot)"""
-    key = hashlib.sha256(canon({k: req.get(k) for k in ('texts', 'w', 'werror', 'version', 'depth', 'use_stl', 'debug', 'short_prefix')}).encode()).hexdigest()[:24]
+    key = hashlib.sha256(canon({k: req.get(k) for k in ('texts', 'w', 'werror', 'version', 'depth', 'use_stl', 'debug', 'short_prefix', 'via_stl_list')}).encode()).hexdigest()[:24]
     if key in _memo:
         return _memo[key]
     snap = os.environ[env.ENV_SNAPSHOT]
